@@ -384,12 +384,17 @@ structure Ctx where
   depth : Nat := 0
   afterDash : Option Nat := none      -- after_dash_depth
   mapDepth : Option Nat := none       -- current_map_depth
+  shift : Int := 0                    -- indent_shift (columns added to indent_step * depth)
 deriving Repr
+
+/-- `indent_cols(depth)` -/
+def indentCols (o : Opts) (cx : Ctx) (depth : Nat) : Nat :=
+  (((o.indentStep * depth : Nat) : Int) + cx.shift).toNat
 
 /-- `write_indent(depth)` when `at_line_start` (emits the `%YAML 1.2` preamble on first use) -/
 def writeIndent (o : Opts) (cx : Ctx) (depth : Nat) : List Char :=
   if cx.atLineStart then
-    (if !cx.docStarted && o.yaml12 then "%YAML 1.2\n---\n".toList else []) ++ spaces (o.indentStep * depth)
+    (if !cx.docStarted && o.yaml12 then "%YAML 1.2\n---\n".toList else []) ++ spaces (indentCols o cx depth)
   else []
 
 /-- "a literal block cannot carry CR / NUL / other controls, nor a content of line breaks only" -/
@@ -424,45 +429,63 @@ def scalarTail (o : Opts) (cx : Ctx) (v : List Char) : List Char :=
    else writePlainOrQuotedValue v o.quoteAll o.yaml12 cx.inFlow)
   ++ (if cx.inFlow then [] else ['\n'])
 
+/-- base depth of a block scalar: the mapping depth after `key:`, else the dash depth, else the depth -/
+def blockBase (cx : Ctx) : Nat :=
+  if cx.pendingSpace then cx.mapDepth.getD cx.depth else cx.afterDash.getD cx.depth
+
+/-- column of the body of a block scalar: `indent_cols(base + 1)` -/
+def blockCols (o : Opts) (cx : Ctx) : Nat := indentCols o cx (blockBase cx + 1)
+
+/-- "the first non-empty content line has leading whitespace" -/
+def needsInd (v : List Char) : Bool := firstLineLeadingSpaces (trimEndNl v) > 0
+
+/-- the conditions under which a selected block style falls back to the quoted / plain writer: an
+indentation indicator that would need two digits or would be counted from a nested parent, a body not
+deeper than an inline `- - ` (indent_step 1), control characters other than `\n` / `\t`, flow context -/
+def blockFallback (o : Opts) (cx : Ctx) (v : List Char) : Bool :=
+  (needsInd v && (blockCols o cx > 9 || blockBase cx > 0)) ||
+  (o.indentStep < 2 && !cx.pendingSpace && blockBase cx > 0) ||
+  v.any (fun c => isControl c && c != '\n' && c != '\t') || cx.inFlow
+
+/-- header text after `|` / `>`: optional indentation digit, chomping indicator -/
+def blockHeaderTail (o : Opts) (cx : Ctx) (v : List Char) : List Char :=
+  (if needsInd v then [Char.ofNat (48 + blockCols o cx)] else []) ++
+    chompInd (v.length - (trimEndNl v).length)
+
+/-- body of the literal style: the content lines, indented; extra empty lines for `keep` -/
+def literalBody (n : Nat) (v : List Char) : List Char :=
+  let content := trimEndNl v
+  let trailingNl := v.length - content.length
+  let indentStr := spaces n
+  if content.isEmpty then
+    -- only line breaks: one empty content line per line break
+    (List.replicate trailingNl (indentStr ++ ['\n'])).flatten
+  else
+    (splitNl content).flatMap (fun line => indentStr ++ line ++ ['\n']) ++
+      (if trailingNl ≥ 2 then (List.replicate (trailingNl - 1) (indentStr ++ ['\n'])).flatten else [])
+
 /-- `serialize_str(v)` with no explicit block-style wrapper and no pending anchor / comment:
 the text written from the current cursor position to the end of the scalar (including the newline in
-block context). `fromAuto` is `pending_str_from_auto`. -/
+block context). -/
 def serializeStr (o : Opts) (cx : Ctx) (v : List Char) : Res (List Char) :=
+  let sp : List Char := if cx.pendingSpace then [' '] else []
   match autoStyle o cx.inFlow v with
   | some style =>
-    let wasMapValue := cx.pendingSpace
-    let sp := if cx.pendingSpace then [' '] else []
-    let base := if wasMapValue then cx.mapDepth.getD cx.depth else cx.afterDash.getD cx.depth
-    let ind0 := writeIndent o cx base
-    let bodyBase := base + 1
-    let indentN := o.indentStep * bodyBase
-    let content := trimEndNl v
-    let needsIndicator := firstLineLeadingSpaces content > 0
-    let shallowInlineSeq := o.indentStep < 2 && !wasMapValue && base > 0
-    if (needsIndicator && (indentN > 9 || base > 0)) || shallowInlineSeq then
+    let ind0 := writeIndent o cx (blockBase cx)
+    if blockFallback o cx v then
       -- fall back to quoting; `write_space_if_pending` already ran, the indent too
       .ok (sp ++ ind0 ++ (writePlainOrQuotedValue v o.quoteAll o.yaml12 cx.inFlow) ++ (if cx.inFlow then [] else ['\n']))
     else
-      let trailingNl := v.length - content.length
-      let digit : List Char := if needsIndicator then [Char.ofNat (48 + indentN)] else []
-      let indentStr := spaces (o.indentStep * bodyBase)
       match style with
       | .literal =>
-        let header := sp ++ ind0 ++ ['|'] ++ digit ++ chompInd trailingNl ++ ['\n']
-        if content.isEmpty then
-          .ok (header ++ (if trailingNl ≥ 1 then indentStr ++ ['\n'] else []))
-        else
-          let body := (splitNl content).flatMap (fun line => indentStr ++ line ++ ['\n'])
-          let extra := if trailingNl ≥ 2 then (List.replicate (trailingNl - 1) (indentStr ++ ['\n'])).flatten else []
-          .ok (header ++ body ++ extra)
+        .ok (sp ++ ind0 ++ ('|' :: (blockHeaderTail o cx v ++ '\n' :: literalBody (blockCols o cx) v)))
       | .folded =>
-        let header := sp ++ ind0 ++ ['>'] ++ digit ++ chompInd trailingNl ++ ['\n']
-        match writeFoldedBlock v bodyBase o.indentStep o.foldedWrap with
-        | .ok body => .ok (header ++ body)
+        -- `write_folded_block(out, s, indent_cols(body_base), 1, wrap)`
+        match writeFoldedBlock v (blockCols o cx) 1 o.foldedWrap with
+        | .ok body => .ok (sp ++ ind0 ++ ('>' :: (blockHeaderTail o cx v ++ '\n' :: body)))
         | .err => .err
         | .panic => .panic
   | none =>
-    let sp := if cx.pendingSpace then [' '] else []
     .ok (sp ++ writeIndent o cx cx.depth ++ scalarTail o cx v)
 
 /-! ## the document shapes used by the differential (positions of a string) -/
@@ -481,34 +504,58 @@ def Pos.ofCode : Nat → Pos
 
 def preamble (o : Opts) : List Char := if o.yaml12 then "%YAML 1.2\n---\n".toList else []
 
-/-- `to_string_with_options(shape(pos, v), o)`: the serializer state in front of the scalar is the one
-the collection serializers of `ser.rs` establish for that shape (derived by reading `serialize_map`,
-`serialize_seq`, `MapSer`, `SeqSer`, `serialize_newtype_variant`; validated by the differential). -/
+/-- The serializer state in front of the scalar in each (value) position: what the collection
+serializers of `ser.rs` establish for that shape (derived by reading `serialize_map`, `serialize_seq`,
+`MapSer`, `SeqSer`, `begin_variant`, `shift_for_inline_node`; validated by the differential). -/
+def posCtx (o : Opts) : Pos → Ctx
+  | .root => { atLineStart := true, docStarted := false }
+  | .mapValue => { pendingSpace := true, mapDepth := some 0 }
+  | .seqItem => { afterDash := some 0 }
+  | .flowSeq => { inFlow := true }
+  | .flowMapValue => { inFlow := true }
+  | .variant => { pendingSpace := true }
+  | .nestedMapValue => { pendingSpace := true, mapDepth := some 1 }
+  | .seqInMap => { afterDash := some (if o.compactList then 0 else 1), mapDepth := some 0 }
+  -- the inner sequence starts on the line of the outer dash: `shift_for_inline_node`
+  | .seqInSeq => { afterDash := some 1, shift := 2 - (o.indentStep : Int) }
+  | .mapKey => {}
+  | .flowMapKey => {}
+
+/-- the text the collection serializers write between the preamble and the scalar -/
+def posPre (o : Opts) : Pos → List Char
+  | .root => []
+  | .mapValue => ['k', ':']
+  | .seqItem => ['-', ' ']
+  | .flowSeq => ['[']
+  | .flowMapValue => ['{', 'k', ':', ' ']
+  -- `begin_variant`: the variant name goes through `write_plain_or_quoted`
+  | .variant => writePlainOrQuoted ['V'] o.quoteAll ++ [':']
+  | .nestedMapValue => ['a', ':', '\n'] ++ spaces o.indentStep ++ ['k', ':']
+  | .seqInMap => ['a', ':', '\n'] ++ spaces (o.indentStep * (if o.compactList then 0 else 1)) ++ ['-', ' ']
+  | .seqInSeq => ['-', ' ', '-', ' ']
+  | .mapKey => []
+  | .flowMapKey => ['{']
+
+/-- … and after it -/
+def posPost : Pos → List Char
+  | .flowSeq => [']', '\n']
+  | .flowMapValue => ['}', '\n']
+  | .mapKey => [':', ' ', '1', '\n']
+  | .flowMapKey => [':', ' ', '1', '}', '\n']
+  | _ => []
+
+/-- `to_string_with_options(shape(pos, v), o)` -/
 def emitDoc (o : Opts) (p : Pos) (v : List Char) : Res (List Char) :=
-  let wrap (pre : List Char) (r : Res (List Char)) (post : List Char) : Res (List Char) :=
-    match r with
-    | .ok t => .ok (pre ++ t ++ post)
+  match p with
+  -- at the root the `%YAML` preamble is written by the scalar's own `write_indent`
+  | .root => serializeStr o (posCtx o .root) v
+  | .mapKey => .ok (preamble o ++ posPre o p ++ keySinkStr v o.yaml12 ++ posPost p)
+  | .flowMapKey => .ok (preamble o ++ posPre o p ++ keySinkStr v o.yaml12 ++ posPost p)
+  | _ =>
+    match serializeStr o (posCtx o p) v with
+    | .ok t => .ok (preamble o ++ posPre o p ++ t ++ posPost p)
     | .err => .err
     | .panic => .panic
-  match p with
-  | .root => serializeStr o { atLineStart := true, docStarted := false } v
-  | .mapValue => wrap (preamble o ++ "k:".toList) (serializeStr o { pendingSpace := true, mapDepth := some 0 } v) []
-  | .mapKey => .ok (preamble o ++ keySinkStr v o.yaml12 ++ ": 1\n".toList)
-  | .seqItem => wrap (preamble o ++ "- ".toList) (serializeStr o { afterDash := some 0 } v) []
-  | .flowSeq => wrap (preamble o ++ "[".toList) (serializeStr o { inFlow := true } v) "]\n".toList
-  | .flowMapValue => wrap (preamble o ++ "{k: ".toList) (serializeStr o { inFlow := true } v) "}\n".toList
-  | .flowMapKey => .ok (preamble o ++ "{".toList ++ keySinkStr v o.yaml12 ++ ": 1}\n".toList)
-  | .variant =>
-    -- `serialize_newtype_variant`: the variant name goes through `write_plain_or_quoted`
-    wrap (preamble o ++ writePlainOrQuoted ['V'] o.quoteAll ++ [':']) (serializeStr o { pendingSpace := true } v) []
-  | .nestedMapValue =>
-    wrap (preamble o ++ "a:\n".toList ++ spaces o.indentStep ++ "k:".toList)
-      (serializeStr o { pendingSpace := true, mapDepth := some 1 } v) []
-  | .seqInMap =>
-    let d := if o.compactList then 0 else 1
-    wrap (preamble o ++ "a:\n".toList ++ spaces (o.indentStep * d) ++ "- ".toList)
-      (serializeStr o { afterDash := some d, mapDepth := some 0 } v) []
-  | .seqInSeq => wrap (preamble o ++ "- - ".toList) (serializeStr o { afterDash := some 1 } v) []
 
 /-! ## non-string scalars -/
 
